@@ -47,8 +47,23 @@ func gen(seed int64) Scenario {
 	sc.Steps = append(sc.Steps, Step{Op: "produce", N: 4 + r.Intn(6)}, Step{Op: "join", M: 1})
 	live := map[int]bool{1: true}
 	n := 6 + r.Intn(10)
+	staleAt := -1
+	if r.Intn(3) == 0 {
+		staleAt = r.Intn(n)
+	}
 	for i := 0; i < n; i++ {
 		m := 1 + r.Intn(2)
+		if i == staleAt && live[1] {
+			// records held unacknowledged across a leader move (or session reset) are acknowledged afterwards: those
+			// acknowledgements are stale; a fresh record polled and acknowledged after that must still be flushed properly
+			fault := Step{Op: "move", N: r.Intn(2)}
+			if r.Intn(3) == 0 {
+				fault = Step{Op: "reset"}
+			}
+			sc.Steps = append(sc.Steps, Step{Op: "poll", M: 1, N: 4}, fault, Step{Op: "move", N: r.Intn(2)}, Step{Op: "sleep", Ms: 300},
+				Step{Op: "ack", M: 1, Kind: 1, Pick: 0, N: 4}, Step{Op: "flush", M: 1}, Step{Op: "produce", N: 3}, Step{Op: "sleep", Ms: 200},
+				Step{Op: "poll", M: 1, N: 2}, Step{Op: "ack", M: 1, Kind: 1, Pick: 0, N: 2}, Step{Op: "flush", M: 1})
+		}
 		switch x := r.Intn(20); {
 		case x < 5:
 			if live[m] {
